@@ -1,9 +1,11 @@
 import IcyVerif.Drv.Term
+import IcyVerif.Drv.Rows
 open IcyVerif.Drv
 
 def dispatch (line : String) : String :=
   match line.trimAscii.toString.splitOn " " with
   | "term" :: rest => Term.handle rest
+  | "rows" :: rest => Rows.handle rest
   | _ => "bad-op"
 
 partial def loop (h : IO.FS.Stream) (out : IO.FS.Stream) : IO Unit := do
